@@ -34,7 +34,7 @@ Section Work.
   Definition get_file_ticket (w : world) (p : bytes) (assumed : fstate) : option T :=
     match fget w p with
     | None => None
-    | Some f => if f_mtime f =? fs_time assumed then Some (fs_t assumed) else Some (hc (f_content f))
+    | Some f => if f_mtime f =? fs_mtime assumed then Some (fs_t assumed) else Some (hc (f_content f))
     end.
 
   (* blob::get_actual_file_state *)
@@ -42,7 +42,7 @@ Section Work.
     match fget w p with
     | None => None
     | Some f =>
-        Some (mk_fstate (if f_mtime f =? fs_time assumed then fs_t assumed else hc (f_content f))
+        Some (mk_fstate (if f_mtime f =? fs_mtime assumed then fs_t assumed else hc (f_content f))
                         (f_mtime f) (f_exec f))
     end.
 
@@ -260,6 +260,9 @@ Section Work.
     end.
 End Work.
 
+Arguments RDone {T}.
+Arguments RNotThere {T}.
+Arguments RCacheMissing {T}.
 Arguments empty_state {T}.
 Arguments get_file_ticket {T}.
 Arguments get_actual_file_state {T}.
